@@ -308,6 +308,16 @@ fn part_a(acc: &mut Acc, tier: Tier) -> usize {
                 }
             }
         }
+        // whatever Content-Length the response announces is the length of the body it carries (HEAD answers carry none)
+        if base_method(d) != "HEAD" && block_on(d.output_body(alts)).is_none() {
+            let cls: Vec<usize> = resp.headers.get_all("content-length").iter().filter_map(|v| v.to_str().ok()).filter_map(|v| v.parse().ok()).collect();
+            if cls.len() > 1 || cls.first().is_some_and(|cl| *cl != resp.body().len()) {
+                // (an output *member* content_length of an operation without a stream, e.g. HeadObject-like outputs, is the member's value)
+                if !model.output.iter().any(|m| m.wire.eq_ignore_ascii_case("content-length")) {
+                    a.fail(&format!("C03/content-length-disagrees-with-body/{}", d.name()), order, id(), format!("Content-Length {cls:?} but {} body bytes", resp.body().len()), json!({}));
+                }
+            }
+        }
         let ct = resp.headers.get("content-type").and_then(|v| v.to_str().ok()).unwrap_or("");
         if ct == "application/xml" && !resp.body().is_empty() && d.name() != "SelectObjectContent" {
             match String::from_utf8(resp.body()).map_err(|e| e.to_string()).and_then(|s| crate::props::c13::well_formed(&s)) {
